@@ -360,6 +360,34 @@ def check(run, res, sc, livelock, t_stop):
                         early_stop = any(t <= inst[0]['t0'] + EPS for (t, k, who) in triggers)
                         if not early_stop:
                             res.fail('C09/D2-started-late', f'daemon {hid} of {uid} started at {inst[0]["t0"]}; the object matched at {first_match}, initial_delay={h.get("initial_delay")}')
+        # the stages are not late either: once the object is marked for deletion, a daemon that must be cancelled is gone after its
+        # backoff, one that swallows cancellations is abandoned after backoff + timeout - and then the object is let go at once
+        # (zero-latency domain; judged when nothing else interferes: no mismatch/disappearance/pause/exit, no synchronous daemons)
+        marks = [t for (t, k, who) in triggers if k == 'deleted']
+        others = [k for (t, k, who) in triggers if k != 'deleted']
+        if marks and not others and not any(h.get('sync') for h in hs.values()):
+            t_d = min(marks)
+            waits, judged = [], True
+            for hid, h in hs.items():
+                if h['kind'] != 'daemon':
+                    continue
+                live_inst = [c for c in calls if c['uid'] == uid and c['hid'] == hid and c['inc'] == inc and c['t0'] <= t_d + EPS and (c['t1'] is None or c['t1'] >= t_d - EPS)]
+                if not live_inst:
+                    continue
+                beh = h.get('behaviour', 'obey')
+                if beh == 'cancel' and h.get('cancellation_timeout') is not None:
+                    waits.append(h.get('cancellation_backoff') or 0.0)
+                elif beh == 'ignore' and h.get('cancellation_timeout') is not None:
+                    waits.append((h.get('cancellation_backoff') or 0.0) + h['cancellation_timeout'])
+                else:
+                    judged = False
+            released = [v['t'] for v in vers_by_uid.get(uid, []) if v['writer'] == inc and cl.FINALIZER not in (v['body']['metadata'].get('finalizers') or [])
+                        and v['t'] >= t_d - EPS]
+            if judged and waits and released and min(released) > t_d + max(waits) + 1e-3:
+                res.fail('C09/D3-stage-late', f'{uid}: marked for deletion at t={t_d}; its daemons need {sorted(waits)} s to be cancelled/abandoned (backoff, backoff+timeout), '
+                         f'but the object was let go only at t={min(released)} ({min(released) - t_d:.3f}s later)')
+            if judged and waits:
+                res.label('staged-termination-timed')
         if any(k in ('deleted', 'mismatch') for (_, k, _) in triggers) and len([t for (t, k, _) in triggers]) >= 2:
             nontrivial = True
     # D6: other objects' raw-event handlers are not delayed while something is stopping (zero-latency domain)
